@@ -13,7 +13,9 @@ _vravel = jax.vmap(jnp.ravel, in_axes=0, out_axes=0)
 
 
 def _history_to_matrix(history: Position) -> Array:
-    return jnp.column_stack([_vravel(x) for x in history.values()])
+    # the columns must be in the order in which ravel_pytree flattens a position
+    # (pytree order, i.e. sorted keys), not in the order the keys were listed in
+    return jnp.column_stack([_vravel(x) for x in jax.tree_util.tree_leaves(history)])
 
 
 def tune_inv_mm_diag(history: Position) -> Array:
